@@ -380,6 +380,36 @@ func init() {
 				}
 			}
 		}
+		// one member name indexed at THREE or more levels of a path (n.Kids[0].Kids[1].Kids[0]): Go navigates it.
+		// (evalIndexCallee used to guess the name the indexed value is bound to by a substring search over
+		// printed paths and bound Kids.Kids where the parser's placeholder says Kids: repaired in round 13)
+		{
+			var mk func(path string, depth int) c11kid
+			mk = func(path string, depth int) c11kid {
+				k := c11kid{Name: path}
+				if depth > 0 {
+					k.Kids = []c11kid{mk(path+".Kids[0]", depth-1), mk(path+".Kids[1]", depth-1)}
+				}
+				return k
+			}
+			extra := map[string]interface{}{"n": mk("n", 4)}
+			for _, t := range [][2]string{{"<%= n.Kids[0].Kids[1].Name %>", "n.Kids[0].Kids[1]"}, {"<%= n.Kids[0].Kids[1].Kids[0].Name %>", "n.Kids[0].Kids[1].Kids[0]"}, {"<%= n.Kids[1].Kids[1].Kids[1].Kids[0].Name %>", "n.Kids[1].Kids[1].Kids[1].Kids[0]"},
+				{"<%= for (k) in n.Kids[0].Kids[1].Kids { %><%= k.Name %>,<% } %>", "n.Kids[0].Kids[1].Kids[0],n.Kids[0].Kids[1].Kids[1],"}, {"<% let q = n.Kids[1].Kids[0].Kids[1] %><%= q.Name %>", "n.Kids[1].Kids[0].Kids[1]"}} {
+				o := runRenderExtra(RCase{Tmpl: t[0]}, extra)
+				e.rep.Evaluations++
+				e.Count("member-repeated")
+				e.Distinct(t[0])
+				rp := map[string]interface{}{"tmpl": t[0], "observed": o}
+				switch {
+				case o.Class == "PANIC":
+					e.Violate("eval-panic@"+siteOf(o.Msg), fmt.Sprintf("Render panicked on %q: %s", t[0], o.Msg), rp)
+				case o.Class == "OK" && o.Out != t[1]:
+					e.Violate("c11-other-element", fmt.Sprintf("%s: Go yields %q, the template rendered %q", t[0], t[1], o.Out), rp)
+				case o.Class == "ERR":
+					e.Violate("c11-member-repeated-three-levels", fmt.Sprintf("%s: Go yields %q, the template failed: %s", t[0], t[1], firstLine(o.Msg)), rp)
+				}
+			}
+		}
 		// a method call whose receiver is reached through FIELDS of what a call or an index returned
 		// (X.M().Y.N(), x[i].Y.N()): Go calls N on Y.  (The parser's assignCallee overwrites the receiver
 		// of the last call with the call / index result: known finding c11-middle-segment-dropped.)
@@ -478,6 +508,12 @@ type c11inner struct{ v int }
 func (i c11inner) Val() int { return i.v }
 
 type c11outer struct{ *c11inner }
+
+// a self-similar type whose only collection member is Kids
+type c11kid struct {
+	Name string
+	Kids []c11kid
+}
 
 // pointer-receiver methods, one of which hands back a pointer into the receiver
 type c11item struct {
